@@ -134,7 +134,9 @@ C09Requests ==
 \* not valid UTF-8 (concretised with the byte shape of a well-formed value of the format)
 HTypesAll == {<<"string", "">>, <<"string", "uuid">>, <<"string", "email">>, <<"string", "date-time">>, <<"string", "date">>, <<"string", "time">>,
               <<"", "">>, <<"", "uuid">>, <<"", "email">>, <<"integer", "">>, <<"number", "">>, <<"boolean", "">>, <<"array", "">>}
-HClsAll == {"ok", "absent", "bad", "empty", "nonutf8"}
+\* "okalt": a second well-formed value of the published type / format in another spelling (upper-case hex
+\* digits in a uuid, 0, false) - no class of HdrDefBad / HdrAmbig, so the request has to be dispatched
+HClsAll == {"ok", "okalt", "absent", "bad", "empty", "nonutf8"}
 C09TypeRequests ==
   { Mk(Rpc(v, "string", Decl(ta, <<"string", "">>, "none")),
        <<[lname |-> "x-a", cls |-> ca], [lname |-> "x-b", cls |-> cb], [lname |-> "x-c", cls |-> "absent"]>>,
